@@ -318,6 +318,7 @@ class Harness:
             goal = z3.BoolVal(False)
         else:
             goal = bool_z(cond)
+        solve.CURRENT_LABEL = label
         v = solve.prove(ctx.all_facts(), goal, generic_inputs=list(ctx.inputs.values()))
         inputs = {}
         if v.status == "refuted" and v.model is not None:
@@ -334,6 +335,7 @@ class Harness:
         """Discharge a goal against an explicit fact list (used when a proof hides definitions on purpose:
         dropping facts only weakens the hypotheses, so a `proved` verdict stays sound)."""
         self.cover(label)
+        solve.CURRENT_LABEL = label
         v = solve.prove(list(facts), bool_z(goal), generic_inputs=list(self.ctx.inputs.values()))
         inputs = {}
         if v.status == "refuted" and v.model is not None:
@@ -488,7 +490,7 @@ def explore(ob_fn, name, prop, preset_cases=None, max_paths=20000) -> Obligation
             rep.errors.append(f"uncaught {type(e).__name__} on cases={ctx.cases}: {e}\n{tb}")
         work.extend(ctx.new_work)
         if sum(1 for i in rep.instances if i.status == "unknown") > MAX_UNKNOWN_PER_JOB:
-            rep.errors.append(f"more than {MAX_UNKNOWN_PER_JOB} undecided obligations in this job: exploration stopped (undecided, not a verdict)")
+            rep.instances.append(Instance("exploration.stopped", {}, "unknown", detail=f"more than {MAX_UNKNOWN_PER_JOB} undecided obligations in this job: exploration stopped (undecided, not a verdict)"))
             break
         for n in ctx.notes:
             if n not in rep.notes:
